@@ -30,6 +30,7 @@ func main() {
 	jsonOut := flag.String("json", "", "write results as JSON")
 	vacuity := flag.Bool("vacuity", false, "report the first obligation of each unit whose hypotheses are unsatisfiable")
 	focus := flag.String("focus", "", "regexp: dump goal and script of matching obligations to /tmp/gocv-focus")
+	flag.IntVar(&listBoundDefault, "listbound", 1, "element bound for repeated fields in generated-code harnesses")
 	flag.IntVar(&hsortBits, "hsort", 48, "bits of size components in heaps (debug)")
 	flag.Parse()
 	t0 := time.Now()
